@@ -14,6 +14,7 @@
 #include <unordered_set>
 #include <functional>
 #include <exception>
+#include <mutex>
 #include <unistd.h>
 #include <fcntl.h>
 
@@ -141,6 +142,8 @@ inline bool caseHasViolation() { return ctx().nviol > ctx().caseViolBase; }
 // history shape), used by the known-findings matcher; desc = free text.
 inline void violation(const std::string & key, const std::string & desc)
 {
+	static std::mutex vmutex; // violations may be reported from worker threads of the concurrent drivers
+	std::lock_guard<std::mutex> vguard(vmutex);
 	Ctx & c = ctx();
 	++c.nviol;
 	if(c.viols.size() < 12) {
